@@ -314,14 +314,14 @@ def native_cases(lib_fnv):
         ver = "None" if p["version"] is None else "(Some (%d, %d, %d)%%N)" % p["version"]
         return f"(mkpol {caps} {ck} {ver})"
 
-    def add(name, flags, route, p, declares, embedded=False, ck_ok=True, imp="sentry", alias=None, symbol=False):
+    def add(name, flags, route, p, declares, embedded=False, ck_ok=True, imp="sentry", alias=None, symbol=False, append_manf=False):
         fl = "[" + "; ".join('"%s"' % x for x in flags) + "]"
         man = "None" if p is None else f'(Some [("{p.get("key") or "sentry"}", {coq_pol(p, ck_ok)})])'
         r = {"source": "RSource", "aasm": "RAasm", "avbc-plain": "RAvbc", "avbc-bundled": "RAvbc"}[route]
         project, emb = (man, "None") if not embedded else ("None", man)
         path = "[" + "; ".join('"%s"' % seg for seg in imp.split(".")) + "]"
         q = f'({fl}, {r}, {project}, {emb}, {path}, mkfile [[1; 2]; [3]]%N (Some (0, 1, 0)%N))'
-        C.append({"name": name, "flags": flags, "route": route, "policy": p, "declares": declares, "query": q, "import": imp, "alias": alias, "symbol": symbol})
+        C.append({"name": name, "flags": flags, "route": route, "policy": p, "declares": declares, "query": q, "import": imp, "alias": alias, "symbol": symbol, "append_manf": append_manf})
 
     add("no-manifest", [], "source", None, None)
     add("caps-no-flags", [], "source", pol(["danger"]), None)
@@ -379,6 +379,11 @@ def native_cases(lib_fnv):
     add("avbc-plain-checksum-wrong", [], "avbc-plain", pol([], "0000000000000000"), "different-checksum", ck_ok=False)
     add("avbc-bundled-caps-denied", ["--deny-caps=danger"], "avbc-bundled", pol(["danger"]), "denied-capability", embedded=True)
     add("avbc-bundled-allowed", [], "avbc-bundled", pol(["danger"]), None, embedded=True)
+    # round 6 reviewer: a bytecode file that carries an EMPTY manifest section of its own (8 bytes appended to a file
+    # assembled without one) must not switch the project manifest next to it off
+    add("avbc-empty-embedded-manifest-caps-denied", ["--deny-caps=danger"], "avbc-plain", pol(["danger"]), "empty-embedded-manifest-denied-capability", append_manf=True)
+    add("avbc-empty-embedded-manifest-checksum-wrong", [], "avbc-plain", pol([], "0000000000000000"), "empty-embedded-manifest-different-checksum", ck_ok=False, append_manf=True)
+    add("avbc-empty-embedded-manifest-allowed", ["--allow-caps=danger"], "avbc-plain", pol(["danger"]), None, append_manf=True)
     return C
 
 
@@ -440,6 +445,8 @@ def run_native(ctx, cli, lib, root, stats):
                         ctx.broken.append("cli: cannot assemble the native probe: " + out[-300:])
                         continue
                     target = os.path.join(d, "main2.avbc")
+                    if c.get("append_manf"):
+                        open(target, "ab").write(b"MANF" + (0).to_bytes(4, "little"))
         ctor, call = os.path.join(d, "ctor.flag"), os.path.join(d, "call.flag")
         rc, out = vlib.sh([cli, "run"] + c["flags"] + [target], timeout=60, cwd=run_dir,
                           env={"C11_CTOR_SENTINEL": ctor, "C11_CALL_SENTINEL": call})
@@ -447,7 +454,7 @@ def run_native(ctx, cli, lib, root, stats):
         loaded, called = os.path.exists(ctor), os.path.exists(call)
         refusal = {"capability-denied": 1, "checksum-mismatch": 2, "version-mismatch": 4}.get(cls, 0 if cls == "ok" else 9)
         c.update({"class": cls, "loaded": loaded, "called": called, "output": out[-400:]})
-        if c["declares"] != "unparsable-manifest":
+        if c["declares"] != "unparsable-manifest" and not c.get("append_manf"):
             obs.append((c["query"], f"[{refusal}; {int(loaded)}; {int(called)}]%N"))
         stats["native_runs"] += 1
         stats["distinct"].add(("native", c["name"]))
